@@ -136,10 +136,14 @@ func runC20(r *core.Run) {
 		return
 	}
 	old := runtime.GOMAXPROCS(0)
-	rounds := r.N(8, 200)
+	rounds := r.N(8, 60)
 	for i, p := range []int{1, 4, 16} {
 		runtime.GOMAXPROCS(p)
-		liveRoundsFrom(r, i*rounds, rounds)
+		n := rounds
+		if p == 1 {
+			n = (rounds + 2) / 3 // a spinning goroutine on a single P starves the settle loop: fewer rounds
+		}
+		liveRoundsFrom(r, i*rounds, n)
 		r.Mark("gomaxprocs", fmt.Sprint(p))
 	}
 	runtime.GOMAXPROCS(old)
@@ -226,7 +230,7 @@ func runC20(r *core.Run) {
 		}()
 	}
 	clients := r.N(8, 32)
-	perClient := r.N(30, 320)
+	perClient := r.N(30, 150)
 	var wg sync.WaitGroup
 	for cidx := 0; cidx < clients; cidx++ {
 		wg.Add(1)
